@@ -51,6 +51,109 @@ def key(f):
     return f.name if f.name is not None else "_%d" % f.idx
 
 
+MID = {"crate::m::fmt_a": "crate::m::mid_fmt_a()", "crate::m::fmt_b": "crate::m::mid_fmt_b()"}
+
+
+def _item_expr(f, var):
+    m = f.s("debug", "method")
+    if m:
+        return "method_item(%s, %s as int)" % (MID[m], var)
+    return "dyn_id(&%s)" % var
+
+
+def post_render(P, text, log):
+    """mechanical hoisting of the helper items educe declares *inside* fn fmt (Verus rejects items in
+    function bodies): `Educe__RawString` (+ its Debug impl) and, per method field, `Educe__DebugField`
+    (+ its Debug impl).  The items are cut out verbatim, made pub, renamed `_k` where a block-local
+    name is reused, given an `ensures` on their own fmt, and placed in `mod hoisted` together with one
+    bridging axiom each (dyn identity of the helper value).  Returns (text, extra module items)."""
+    from . import rs
+    import re
+    P.tags["broadcast"] = []
+    if "Educe__RawString" not in text and "Educe__DebugField" not in text:
+        return text, ""
+    hoisted, axioms, names = [], [], []
+    k = 0
+    guard = 0
+    while True:
+        guard += 1
+        if guard > 200:
+            raise ValueError("hoist: did not converge")
+        toks = rs.lex(text)
+        hit = None
+        for i, t in enumerate(toks):
+            if t[0] == "id" and t[1] == "struct" and i + 1 < len(toks) and toks[i + 1][1] in ("Educe__RawString", "Educe__DebugField"):
+                hit = i
+                break
+        if hit is None:
+            break
+        name = toks[hit + 1][1]
+        # item 1: optional preceding attribute .. ';'
+        start = hit
+        if hit >= 2 and toks[hit - 1][1] == "]":
+            # walk back over one attribute  # [ ... ]
+            j = hit - 1
+            depth = 0
+            while j >= 0:
+                if toks[j][1] == "]": depth += 1
+                if toks[j][1] == "[":
+                    depth -= 1
+                    if depth == 0: break
+                j -= 1
+            if j >= 1 and toks[j - 1][1] == "#":
+                start = j - 1
+        e1 = next(j for j in range(hit, len(toks)) if toks[j][1] == ";" )
+        # item 2: impl ... for <name> ... { ... }
+        if toks[e1 + 1][1] != "impl":
+            raise ValueError("hoist: expected the Debug impl after struct " + name)
+        b = next(j for j in range(e1 + 1, len(toks)) if toks[j][1] == "{")
+        e2 = rs.match_close(toks, b)
+        item1 = text[toks[start][2]:toks[e1][3]]
+        item2 = text[toks[e1 + 1][2]:toks[e2][3]]
+        rest_before = text[:toks[start][2]]
+        rest_after = text[toks[e2][3]:]
+        if name == "Educe__RawString":
+            text = rest_before + rest_after
+            if "Educe__RawString" in names:
+                if item2.split() != names_raw_impl.split():
+                    raise ValueError("hoist: differing Educe__RawString impls")
+                continue
+            names.append("Educe__RawString")
+            names_raw_impl = item2
+            it1 = re.sub(r"struct\s+Educe__RawString\s*\(", "pub struct Educe__RawString(pub ", item1)
+            it2 = re.sub(r"->\s*::core::fmt::Result\s*\{", "-> (r: ::core::fmt::Result)\n            ensures r == wr(f_state(old(f)), self.0@)\n        {", item2, count=1)
+            hoisted += [it1, it2]
+            axioms.append(("bridge_raw", "pub broadcast axiom fn bridge_raw(x: &Educe__RawString) ensures #[trigger] dyn_id(x) == raw_key(x.0@);"))
+            log.append("hoisted Educe__RawString + its Debug impl out of fn fmt (made pub, ensures added on its fmt, bridging axiom added)")
+        else:
+            k += 1
+            new = "Educe__DebugField_%d" % k
+            # the block's tail expression uses the block-local name once more
+            m = re.search(r"\bEduce__DebugField\s*\(", rest_after)
+            if not m:
+                raise ValueError("hoist: constructor use of Educe__DebugField not found")
+            rest_after = rest_after[:m.start()] + new + "(" + rest_after[m.end():]
+            text = rest_before + rest_after
+            im = rs.parse_impl(item2)
+            mm = re.search(r"([A-Za-z_][A-Za-z0-9_:]*)\s*\(\s*self\s*\.\s*0\s*,\s*educe__f\s*\)", item2)
+            if not mm or mm.group(1) not in MID:
+                raise ValueError("hoist: method call of Educe__DebugField impl not recognised")
+            meth = mm.group(1)
+            if "&u8" not in re.sub(r"\s+", "", im.self_ty):
+                raise ValueError("hoist: only u8 method fields are supported")
+            it1 = re.sub(r"struct\s+Educe__DebugField\s*<\s*V\s*,\s*M\s*>\s*\(\s*V\s*,", "pub struct %s<V, M>(pub V, pub " % new, item1)
+            it2 = item2.replace("Educe__DebugField", new)
+            it2 = re.sub(r"->\s*::core::fmt::Result\s*\{", "-> (r: ::core::fmt::Result)\n            ensures r == %s_spec(*self.0, f_state(old(educe__f)))\n        {" % meth, it2, count=1)
+            hoisted += [it1, it2]
+            g = "<%s>" % im.generics if im.generics else ""
+            axioms.append(("bridge_%d" % k, "pub broadcast axiom fn bridge_%d%s(x: &%s) ensures #[trigger] dyn_id(x) == method_item(%s, *x.0 as int);"
+                           % (k, g, im.self_ty.replace("Educe__DebugField", new), MID[meth])))
+            log.append("hoisted Educe__DebugField (#%d, method %s) + its Debug impl out of fn fmt (renamed %s, made pub, ensures added on its fmt, bridging axiom added)" % (k, meth, new))
+    extra = "pub mod hoisted {\n    use super::*;\n%s\n%s\n}\nuse hoisted::*;\n" % ("\n".join(hoisted), "\n".join(a for _, a in axioms))
+    P.tags["broadcast"] = ["hoisted::" + n for n, _ in axioms]
+    return text, extra
+
+
 def verus(P, impls, u, prop="C06"):
     ims = [im for im in impls if trait_of(im) == "Debug"]
     if len(ims) != 1:
@@ -64,23 +167,26 @@ def verus(P, impls, u, prop="C06"):
         nm = vname(P, v)
         st = style(P, v)
         fs = shown(v)
-        if any(f.s("debug", "method") for f in fs):
-            u.skip_verus = "a shown field uses a custom method: the expansion declares an item inside fn fmt (outside Verus' subset)"
+        if any(f.s("debug", "method") and f.ty != "u8" for f in fs):
+            u.skip_verus = "custom method on a non-u8 field: the hoisting transform only handles u8 method fields"
             return u
         if st == "unit":
             e = 'wr(f_state(old({p1})), "%s"@)' % nm
         elif st == "struct":
             if nm is None:
-                u.skip_verus = "nameless struct-style form uses debug_map with an item declared inside fn fmt (outside Verus' subset)"
-                return u
-            e = 'ts_start(f_state(old({p1})), "%s"@)' % nm
-            for f in fs:
-                e = 'ts_field(%s, "%s"@, dyn_id(&x%d))' % (e, key(f), f.idx)
-            e = "sfin(%s)" % e
+                e = "tm_start(f_state(old({p1})))"
+                for f in fs:
+                    e = 'tm_entry(%s, raw_key("%s"@), %s)' % (e, key(f), _item_expr(f, "x%d" % f.idx))
+                e = "mfin(%s)" % e
+            else:
+                e = 'ts_start(f_state(old({p1})), "%s"@)' % nm
+                for f in fs:
+                    e = 'ts_field(%s, "%s"@, %s)' % (e, key(f), _item_expr(f, "x%d" % f.idx))
+                e = "sfin(%s)" % e
         else:
             e = 'tt_start(f_state(old({p1})), "%s"@)' % (nm or "")
             for f in fs:
-                e = "tt_field(%s, dyn_id(&x%d))" % (e, f.idx)
+                e = "tt_field(%s, %s)" % (e, _item_expr(f, "x%d" % f.idx))
             e = "tfin(%s)" % e
         arms.append("%s => %s," % (P.pat(v, "x", only={f.idx for f in fs}), e))
     u.verus_edits[("Debug", "fmt")] = "r == (match *{p0} { %s })" % " ".join(arms)
